@@ -3,8 +3,9 @@ Driver for C15.  One case = one PALS workload
   `pw <self> <minLen> <minIdMilli> <maxMemMB> <plants> <target> <query|->\t<observation>`
 (or `pt <minLen> <minIdMilli> <plants> <traps> <target> <query>`: the aligner run on a given
 trapezoid list through `AlignFrom`, same statement).
-The kernel is modelled by its contract only, so there is no model output to compare hit by hit;
-what runs here is the executable statement of the property on the implementation's hits:
+What runs here is the executable statement of the property on the implementation's hits, and the
+model of `AlignTraps` (`Biogo.PalsKernel.alignTraps`: kernel, acceptance test, suppression) on the
+trapezoids the implementation's aligner was given, compared hit by hit:
 
  per hit   inside both sequences; both lengths ≥ minLen; reported Error ≤ 1 − minId;
            Score ≤ `globalScore (palsS SameCost DiffCost)` of the two hit regions (the proved
@@ -16,6 +17,7 @@ what runs here is the executable statement of the property on the implementation
            on diagonals within [LowDiagonal, HighDiagonal]);
  model     the acceptance function `accept` of the model holds for the hit and the reported
            Error is `errNum/(RMatchCost·blen)` (disagreement → `diff`);
+ strand    no two hits share a start point, no two an end point (`alignTraps_sound`);
  workload  every planted pair is recovered by one hit on the right strand that overlaps more
            than half of each copy; no trivial self match in self comparison; the filter
            parameters chosen by Optimise have a positive q-gram threshold and TubeOffset ≥ MaxError.
